@@ -256,5 +256,26 @@ kf("C14", "C14-msl-pipeline-constants", "msl.Options.PipelineConstants: a missin
 kf("C14", "C14-glsl-pipeline-constants", "glsl.Options.PipelineConstants: with an empty map overrides are left unresolved (\"unsupported expression kind: ir.ExprOverride\"); otherwise the same wrong values and ill-formed output as the ProcessOverrides route", _c14.get("glslpc", []))
 kf("C14", "C14-caller-module-modified", "override resolution on ir.CloneModuleForOverrides alters the caller's module (shallow clone of nested blocks; see C12-overrides-shallow-clone)", _c14.get("caller", []))
 
+# ---------------------------------------------------------------- F3 / F4acc findings mirrored into the per-backend semantic checks
+# (the same defects as the C07 entries, observed through the C01/C03/C04/C05 checks, whose keys are prop|shape|config|class)
+def _mirror():
+    be2prop = {"spirv": "C01", "hlsl": "C03", "msl": "C04", "glsl": "C05"}
+    for e in list(K):
+        if e["property"] != "C07":
+            continue
+        per = {}
+        for key in e["keys"]:
+            p = key.split("|")
+            if len(p) >= 3 and p[1] in be2prop:
+                per.setdefault(be2prop[p[1]], []).append("|".join([be2prop[p[1]]] + p[2:]))
+        for prop, keys in per.items():
+            kf(prop, e["id"].replace("C07-", prop + "-layout-"), e["what"] + " (same defect as " + e["id"] + ", seen by the semantic check)", keys)
+_mirror()
+
+kf("C03", "C03-private-array-declaration", "private arrays are declared `static uint[4] pa` (dimension after the type): not HLSL (same defect as C07-hlsl-private-array-declaration)",
+   ["C03|F4acc/*/private-array|*|malformed-output:array dimension after type name*"])
+kf("C03", "C03-matrix-helper-on-unemitted-struct", "a storage-only struct with a matCx2 member and a runtime-array tail is not declared in the HLSL text, but GetMat/SetMat helpers taking it by value are emitted (same defect as C15-hlsl-matrix-helper-on-unemitted-struct)",
+   ["C03|F4acc/*/storage-matrix-column|*|malformed-output:unknown type \"S\""])
+
 json.dump(K, open("known_findings.json", "w"), indent=1)
 print(len(K), "entries")
